@@ -17,6 +17,7 @@
   OBLIGATION c06_witness_omitted_variable_skips_default
   OBLIGATION c06_witness_null_becomes_singleton_list
   OBLIGATION c06_witness_variable_values_not_coerced
+  OBLIGATION c06_witness_literal_unchecked_beside_unsupplied_variable
   Value level (lists incl. single-value wrapping and nested lists, struct defaults, oneof objects),
   for well-formed tables (`wfTable`) and values whose object literals have distinct, declared keys
   (`shapeOk`, what `is_valid_input_value` checks on a map before anything is parsed):
@@ -28,8 +29,13 @@
   OBLIGATION c06_value_false
   OBLIGATION c06_typed_false
   OBLIGATION c06_request_false
+  Request level for VALID documents (`docOk`: declared distinct arguments and keys, literals the
+  specification accepts, variables in allowed positions) over well-formed tables — stated, not
+  proved; checked by the correspondence only:
+  OPEN c06_request_wf
 -/
 import AGV.Lemmas.CoerceTyped
+import AGV.Lemmas.CoerceRequest
 
 namespace AGV.Props.C06
 open AGV.Core
@@ -288,17 +294,14 @@ theorem c06_typed_false : ¬ c06_typed := by
 
 -- ------------------------------------------------------------------ request level
 
-/-- request level, as first stated: for a valid operation, a field whose specified coercion
+/-- request level, as first stated: for every operation, a field whose specified coercion
     succeeds is invoked with exactly those arguments unless another field of the request fails; a
     field whose coercion fails is not invoked and the response has an error.
-    FALSE of the repaired model (`c06_request_false`), on the well-formed table `T4`: ArgumentsOfCorrectType
-    skips an argument literal that mentions a variable without supplied value (`into_const_with`
-    fails), so nothing checks the keys of `{a: $v, zzz: 1}`; the generated `parse` ignores the
-    undeclared key and the resolver is invoked, where the specification fails the field.  (Also a
-    string literal at an enum type is accepted by validation and `parse_enum`, the specification
-    accepts a string for an enum only from JSON variables.)  A corrected request-level statement
-    needs these excluded and VariablesInAllowedPosition for variable-bound arguments; it is not
-    formulated here — the request level is checked by the correspondence only. -/
+    FALSE (`c06_request_false`) because nothing restricts the document: a string literal at an
+    enum position (`f(x: "RED")`) is accepted by `is_valid_input_value` and by `parse_enum`, while
+    the specification accepts a string for an enum only from JSON variables.  Documents like this
+    are invalid (§5.6.1) and outside the property's quantifier; the corrected statement is
+    `c06_request_wf`. -/
 def c06_request : Prop :=
   ∀ (T : Table) (op : OpDef) (raw : List (String × GValue)),
     (∀ vd ∈ op.vars, True) →
@@ -311,6 +314,26 @@ def c06_request : Prop :=
         | some args => p.2.2 = .seen args ∨ (fs.any (·.2.isNone) ∧ (p.2.2 = .err ∨ p.2.2 = .notInvoked))
         | none => p.2.2 = .err ∨ p.2.2 = .notInvoked
 
+/-- one enum, one root field `f(x: Option<Color>)` -/
+def T5 : Table :=
+  { types := [("Color", .enum ["RED"])],
+    fields := [⟨"f", [⟨"x", .opt (.named "Color"), none⟩]⟩] }
+
+/-- `{ f(x: "RED") }` -/
+def opEnumString : OpDef :=
+  { ty := .query, name := none, vars := [], dirs := [], sels := [.field none "f" [("x", .str "RED")] [] [] ⟨0, 0⟩] }
+
+theorem c06_request_false : ¬ c06_request := by
+  intro h
+  have h := h T5 opEnumString [] (fun _ _ => trivial)
+  have hreq : request T5 opEnumString [] = some [("f", none)] := by rfl
+  have hrun : (run Defects.none T5 opEnumString []).fields =
+      [("f", .seen [("x", .enum "RED")])] := by rfl
+  rw [hreq] at h
+  simp only [hrun] at h
+  have h := (h (("f", none), ("f", .seen [("x", .enum "RED")])) (by simp)).2
+  rcases h with h | h <;> cases h
+
 /-- one struct `I { a: Option<i32> }`, one root field `f(x: Option<I>)` -/
 def T4 : Table :=
   { types := [("Int", .scalar), ("I", .input false [⟨"a", .opt (.named "Int"), none⟩])],
@@ -320,15 +343,55 @@ def T4 : Table :=
 def opUnknownKey : OpDef :=
   { ty := .query, name := none, vars := [⟨"v", .named "Int", none⟩], dirs := [], sels := [.field none "f" [("x", .obj [("a", .var "v"), ("zzz", .int 1)])] [] [] ⟨0, 0⟩] }
 
-theorem c06_request_false : ¬ c06_request := by
-  intro h
-  have h := h T4 opUnknownKey [] (fun _ _ => trivial)
-  have hreq : request T4 opUnknownKey [] = some [("f", none)] := by rfl
-  have hrun : (run Defects.none T4 opUnknownKey []).fields =
-      [("f", .seen [("x", .obj [("a", .null)])])] := by rfl
-  rw [hreq] at h
-  simp only [hrun] at h
-  have h := (h (("f", none), ("f", .seen [("x", .obj [("a", .null)])])) (by simp)).2
-  rcases h with h | h <;> cases h
+/-- ArgumentsOfCorrectType skips an argument literal that mentions a variable without supplied
+    value (`into_const_with` fails), so nothing checks the keys of `{a: $v, zzz: 1}`; the
+    generated `parse` ignores the undeclared key and the resolver is invoked, where the
+    specification fails the field.  Repaired: the literal is checked around the variable and the
+    request is refused. -/
+theorem c06_witness_literal_unchecked_beside_unsupplied_variable :
+    (run { literalUncheckedBesideVar := true } T4 opUnknownKey []).fields
+        = [("f", .seen [("x", .obj [("a", .null)])])]
+    ∧ request T4 opUnknownKey [] = some [("f", none)]
+    ∧ (run Defects.none T4 opUnknownKey []).status = .reqerr
+    ∧ (run Defects.none T4 opUnknownKey []).fields = [("f", .notInvoked)] := by
+  refine ⟨rfl, rfl, rfl, rfl⟩
+
+/-- the table's schema defaults denote the Rust defaults -/
+def defaultsOk (T : Table) : Prop :=
+  (∀ n o fs f d, T.find? n = some (.input o fs) → f ∈ fs → f.default = some d →
+      fieldDefault Defects.none T f d = some (view T f.ty d))
+  ∧ (∀ sig ∈ T.fields, ∀ a ∈ sig.args, ∀ d, a.default = some d →
+      parseD Defects.none T a.ty d = some (view T a.ty d))
+
+/-- **Request level, corrected** (OPEN — not proved).  For every well-formed table whose defaults
+    denote the Rust defaults, every VALID query operation (`docOk`) and every assignment of
+    variable values whose integers are 32-bit: if variable coercion fails nothing is invoked and
+    the response has an error; otherwise a root field whose specified argument coercion succeeds
+    is invoked with exactly the specified arguments unless some field of the request fails, and a
+    field whose coercion fails is not invoked and the response has an error.  About the repaired
+    model (all toggles off: argument defaults for variables without value, `Vec` refusing null,
+    variable values checked against the declared type, literals checked around unsupplied
+    variables). -/
+def c06_request_wf : Prop :=
+  ∀ (T : Table) (op : OpDef) (raw : List (String × GValue)),
+    wfTable T = true → defaultsOk T → docOk T op = true →
+    (∀ p ∈ raw, intsSmall p.2 = true) →
+    match request T op raw with
+    | none => (run Defects.none T op raw).status ≠ .ok ∧
+        ∀ f ∈ (run Defects.none T op raw).fields, f.2 = .err ∨ f.2 = .notInvoked
+    | some fs =>
+      ((run Defects.none T op raw).status = .ok ↔ fs.all (·.2.isSome) = true) ∧
+      ∀ p ∈ fs.zip (run Defects.none T op raw).fields,
+        p.1.1 = p.2.1 ∧
+        match p.1.2 with
+        | some args => p.2.2 = .seen args ∨ (fs.any (·.2.isNone) ∧ (p.2.2 = .err ∨ p.2.2 = .notInvoked))
+        | none => p.2.2 = .err ∨ p.2.2 = .notInvoked
+
+/-- the hypotheses are satisfiable: the witness tables are well formed, and
+    `query($v: Int){ f(x: {a: $v}) }` is a valid document over `T4` -/
+example : wfTable T4 = true ∧ docOk T4 { opUnknownKey with
+    sels := [.field none "f" [("x", .obj [("a", .var "v")])] [] [] ⟨0, 0⟩] } = true
+    ∧ docOk T4 opUnknownKey = false ∧ docOk T5 opEnumString = false := by
+  refine ⟨rfl, rfl, rfl, rfl⟩
 
 end AGV.Props.C06
